@@ -240,6 +240,8 @@ def extra_items(tier):
         out.append((f'cdefault_{k}', f'{{ let a: GA<u32, N<{k}>> = GA::<u32, N<{k}>>::const_default(); let mut i = 0; let mut h = 0u64; while i < {k} {{ assert!(a.as_slice()[i] == 0); h = mix(h, a.as_slice()[i] as u64); i += 1; }} assert!(a.as_slice().len() == {k}); ({k}, 0, h, 0, 0) }}'))
         out.append((f'arr_type_{k}', f'{{ let a = arr![9u8; N<{k}>]; let mut i = 0; while i < {k} {{ assert!(a.as_slice()[i] == 9); i += 1; }} assert!(a.as_slice().len() == {k}); ({k}, 0, 9, 0, 0) }}'))
         out.append((f'arr_const_{k}', f'{{ let a: GA<u8, N<{k}>> = arr![9u8; {k}]; let mut i = 0; while i < {k} {{ assert!(a.as_slice()[i] == 9); i += 1; }} assert!(a.as_slice().len() == {k}); ({k}, 0, 9, 0, 0) }}'))
+    out.append(('arr_type_1025', '{ let a = arr![9u8; generic_array::typenum::Add1<generic_array::typenum::U1024>]; let mut i = 0; while i < 1025 { assert!(a.as_slice()[i] == 9); i += 1; } (a.as_slice().len(), 0, 9, 0, 0) }'))
+    out.append(('arr_type_3000', '{ let a = arr![9u16; generic_array::typenum::Prod<U3, generic_array::typenum::U1000>]; assert!(a.as_slice().len() == 3000 && a.as_slice()[2999] == 9); (3000, 0, 9, 0, 0) }'))
     for k in [0, 1, 2, 3, 5, 8, 17, 33, 64]:
         lst = ', '.join(f'{(i * 3 + 1) % 256}u8' for i in range(k))
         out.append((f'arr_list_{k}', f'{{ let a: GA<u8, N<{k}>> = arr![{lst}]; let mut i = 0; let mut h = 0u64; while i < {k} {{ assert!(a.as_slice()[i] as usize == (i * 3 + 1) % 256); h = mix(h, a.as_slice()[i] as u64); i += 1; }} ({k}, 0, h, 0, 0) }}'))
